@@ -19,23 +19,34 @@ Theorem C25_dispatch_roundtrip : forall Msg fast es m i b,
   d_serialize Msg es m = Some b /\ d_deserialize Msg fast es b = Some m.
 Proof. exact dispatch_roundtrip. Qed.
 
-(* the real send/receive path: the serializer resolved for the message's type (first matching entry
-   in registration order) encodes, the composite dispatcher decodes *)
+(* the real send/receive path: the serializer resolved for the message's type encodes, the composite
+   dispatcher decodes *)
 Theorem C25_send_receive_roundtrip : forall Msg fast es m i e b,
-  nth_error es i = Some e -> matches e m = true ->
-  (forall j ej, (j < i)%nat -> nth_error es j = Some ej -> matches ej m = false) ->
+  nth_error es i = Some e -> resolve Msg es m = Some (e_ser e) ->
   ser (e_ser e) m = Some b -> deser (e_ser e) b = Some m ->
   (forall j ej, (j < i)%nat -> nth_error es j = Some ej -> deser (e_ser ej) b = None) ->
   fast_harmless Msg fast es b m ->
-  resolve Msg es m = Some (e_ser e) /\ d_deserialize Msg fast es b = Some m.
+  d_deserialize Msg fast es b = Some m.
 Proof. exact send_receive_roundtrip. Qed.
 
-(* chosen by type: exactly the first entry, in registration order, whose type matches *)
-Theorem C25_resolve_is_first_match : forall Msg es m s,
-  resolve Msg es m = Some s <->
-  exists i e, nth_error es i = Some e /\ matches e m = true /\ s = e_ser e /\
-              forall j ej, (j < i)%nat -> nth_error es j = Some ej -> matches ej m = false.
-Proof. exact resolve_spec. Qed.
+(* chosen by type: the first entry registered for EXACTLY the message's concrete type wins, wherever
+   interface entries were registered ... *)
+Theorem C25_resolve_exact_type_first : forall Msg es m i e,
+  nth_error es i = Some e -> is_iface e = false -> matches e m = true ->
+  (forall j ej, (j < i)%nat -> nth_error es j = Some ej -> is_iface ej = true \/ matches ej m = false) ->
+  resolve Msg es m = Some (e_ser e).
+Proof. exact resolve_exact_type_first. Qed.
+(* ... otherwise the first registered interface the message implements ... *)
+Theorem C25_resolve_then_first_interface : forall Msg es m i e,
+  (forall ej, In ej es -> is_iface ej = false -> matches ej m = false) ->
+  nth_error es i = Some e -> is_iface e = true -> matches e m = true ->
+  (forall j ej, (j < i)%nat -> nth_error es j = Some ej -> is_iface ej = false \/ matches ej m = false) ->
+  resolve Msg es m = Some (e_ser e).
+Proof. exact resolve_then_first_interface. Qed.
+(* ... and never anything that is not registered for the message's type *)
+Theorem C25_resolve_sound : forall Msg es m s,
+  resolve Msg es m = Some s -> exists e, In e es /\ matches e m = true /\ s = e_ser e.
+Proof. exact resolve_sound. Qed.
 
 (* unsupported => error, never bytes / never a message *)
 Theorem C25_unsupported_serialize_error : forall Msg es m,
@@ -61,14 +72,11 @@ Theorem C25_cross_acceptance_refuted :
   d_deserialize N (fun _ => false) [eB; eA] [105] = Some 5.
 Proof. exact cross_acceptance_refuted. Qed.
 
-(* the documented "exact concrete type first, then interfaces" rule is NOT what resolveSerializer does *)
-Theorem C25_resolve_exact_first_refuted :
-  resolve N [eB; eA] 50 = Some sB /\ resolve_documented N [eB; eA] 50 = Some sA.
-Proof. exact resolve_exact_first_refuted. Qed.
-Theorem C25_resolve_documented_partial : forall (Msg : Type) (ex ifs : list (entry Msg)) m,
-  Forall (fun e => is_iface e = false) ex -> Forall (fun e => is_iface e = true) ifs ->
-  resolve Msg (ex ++ ifs) m = resolve_documented Msg (ex ++ ifs) m.
-Proof. exact resolve_documented_partial. Qed.
+(* an earlier interface entry no longer shadows an exact-type entry (it did before the repair of
+   resolveSerializer, kept here as resolve_first_match) *)
+Theorem C25_resolve_exact_beats_earlier_interface :
+  resolve N [eB; eA] 50 = Some sA /\ resolve_first_match N [eB; eA] 50 = Some sB.
+Proof. exact resolve_exact_beats_earlier_interface. Qed.
 
 (* ---- the frame layouts decide most cross-acceptance questions *)
 Theorem C25_shared_layout_roundtrip : forall known M dec name payload,
@@ -115,14 +123,15 @@ Proof. exact frame_type_name_shared. Qed.
 
 Print Assumptions C25_dispatch_roundtrip.
 Print Assumptions C25_send_receive_roundtrip.
-Print Assumptions C25_resolve_is_first_match.
+Print Assumptions C25_resolve_exact_type_first.
+Print Assumptions C25_resolve_then_first_interface.
+Print Assumptions C25_resolve_sound.
 Print Assumptions C25_unsupported_serialize_error.
 Print Assumptions C25_unsupported_resolve_none.
 Print Assumptions C25_undecodable_error.
 Print Assumptions C25_order_independent_partial.
 Print Assumptions C25_cross_acceptance_refuted.
-Print Assumptions C25_resolve_exact_first_refuted.
-Print Assumptions C25_resolve_documented_partial.
+Print Assumptions C25_resolve_exact_beats_earlier_interface.
 Print Assumptions C25_shared_layout_roundtrip.
 Print Assumptions C25_shared_cross_needs_common_name.
 Print Assumptions C25_shared_rejects_poison.
